@@ -1006,7 +1006,7 @@ func marshalEncryptedContent(content []byte) asn1.RawValue {
 }
 
 func encryptKey(key []byte, recipient *Certificate) ([]byte, error) {
-	if pub := recipient.PublicKey.(*rsa.PublicKey); pub != nil {
+	if pub, ok := recipient.PublicKey.(*rsa.PublicKey); ok && pub != nil {
 		return rsa.EncryptPKCS1v15(rand.Reader, pub, key)
 	}
 	return nil, ErrPKCS7UnsupportedAlgorithm
@@ -1079,7 +1079,7 @@ func PKCS7EncryptSM2(content []byte, recipients []*Certificate, mode int) ([]byt
 
 
 func encryptKeySM2(key []byte, recipient *Certificate, mode int) ([]byte, error) {
-	if pub := recipient.PublicKey.(*ecdsa.PublicKey); pub != nil {
+	if pub, ok := recipient.PublicKey.(*ecdsa.PublicKey); ok && pub != nil {
 		pubkey := &sm2.PublicKey{}
 		pubkey.Curve = pub.Curve
 		pubkey.Y = pub.Y
